@@ -1,9 +1,35 @@
-//! STUB component for tpmclient -- to be written
+//! component 25: TpmClient1_2.  Case vocabulary documented in coq/theories/Spec/Tpm2S.v.
 use crate::sx::*;
+use crate::tcommon::*;
 use crate::Emit;
+use acpi_tables::tpm2::TpmClient1_2;
 
-pub fn run(_case: &Sx, _out: &mut Vec<Ev>) {
-    panic!("harness: component tpmclient not implemented")
+pub fn run(case: &Sx, out: &mut Vec<Ev>) {
+    let c = case.list();
+    let ctor = c[0].list();
+    let (oem, tbl, rev) = hdr_args(ctor);
+    let t = TpmClient1_2::new(oem, tbl, rev, ctor[3].num() as u32, ctor[4].num());
+    for op in &c[1..] {
+        if let Sx::A(_) = op {
+            out.push(image(&t));
+            continue;
+        }
+        panic!("harness: TpmClient1_2 has no operation");
+    }
 }
 
-pub fn gen(_tier: &str, _rng: &mut Rng, _emit: &mut Emit) {}
+pub fn gen(tier: &str, rng: &mut Rng, emit: &mut Emit) {
+    for (len, base) in [(0u64, 0u64), (u32::MAX as u64, u64::MAX), (0x8000_0000, 0x1234_5678_9012_3456), (1, 0), (0, 1), (0x0102_0304, 0x0506_0708_090a_0b0c)] {
+        let mut c = rand_hdr(rng);
+        c.push(a(len));
+        c.push(a(base));
+        emit.case(25, history(rng, l(c), vec![]));
+    }
+    let n = if tier == "thorough" { 2000 } else { 150 };
+    for _ in 0..n {
+        let mut c = rand_hdr(rng);
+        c.push(a(rng.val(32)));
+        c.push(a(rng.val(64)));
+        emit.case(25, history(rng, l(c), vec![]));
+    }
+}
